@@ -527,7 +527,15 @@ def step (d : DState) (line : String) : IO DState := do
       | some op =>
         match r.call op with
         | .ok _ => out "judge ok"
-        | .error k => out s!"judge err {showErr k}"
+        | .error k =>
+          -- for a batch: how many leading entries the reference log accepts (entry-level writes)
+          let acc : Nat := match op with
+            | .append es => (List.range es.length).foldl (fun a j =>
+                match r.call (.append (es.take (j + 1))) with
+                | .ok _ => if a == j then j + 1 else a
+                | .error _ => a) 0
+            | _ => 0
+          out s!"judge err {showErr k}{if acc > 0 then s!" accepted={acc}" else ""}"
       | none => out "bad-op"
     | _, _, _, _, _ => out "bad-op"
     return d
